@@ -173,7 +173,9 @@ func (self *MapIterator) appendConcrete(p *_MapPair, t *rt.GoType, k unsafe.Poin
 	if err != nil {
 		return err
 	}
-	p.k = rt.Mem2Str(out)
+	// the key text is kept until every key has been collected and sorted: copy it
+	// (as encoding/json does), MarshalText may hand out the same buffer again
+	p.k = string(out)
 	return nil
 }
 
@@ -250,7 +252,7 @@ func IteratorStart(t *rt.GoMapType, m unsafe.Pointer, fv uint64) (*MapIterator, 
 func asText(v unsafe.Pointer) (string, error) {
 	text := rt.AssertI2I(rt.UnpackType(vars.EncodingTextMarshalerType), *(*rt.GoIface)(v))
 	r, e := (*(*encoding.TextMarshaler)(unsafe.Pointer(&text))).MarshalText()
-	return rt.Mem2Str(r), e
+	return string(r), e
 }
 
 func IsValidNumber(s string) bool {
